@@ -372,3 +372,53 @@ def alike_variant(frag, lead, gaps, rng):
     g2 = [rng.choice(pool) if opaque(g) else g for g in gaps[:-1]] + [rng.choice(['', ' ', '\n', '  \n\t'])]
     lead2 = rng.choice(['', ' ', '\n', '\t  ', '\n\n'])
     return lead2 + ''.join(t + g for t, g in zip(toks, g2)), lead2, g2
+
+
+def reroot(frag, root):
+    """the same fragment written from another end: the atoms declared in breadth-first order from the atom labelled `root`,
+    every atom bonded to the atom it was reached from, the bonds that close cycles as `ringbond` items, the stereo items last.
+    Same atoms (type, constraints), same bonds, same stereo clauses - it denotes the same embeddings up to the order of the
+    atoms in a match, hence the same SETS of matched atoms.  None when the fragment's bond graph is not connected from `root`
+    or a label is declared twice."""
+    atoms = {}
+    order = []
+    for it in frag['items']:
+        if it[0] == 'atom':
+            if it[1]['label'] in atoms:
+                return None
+            atoms[it[1]['label']] = it[1]
+            order.append(it[1]['label'])
+    if root not in atoms:
+        return None
+    edges = []
+    for it in frag['items']:
+        if it[0] == 'atom' and it[1]['bond']:
+            edges.append((it[1]['label'], it[1]['bond'][1], it[1]['bond'][0]))
+        elif it[0] == 'ringbond':
+            edges.append((it[1], it[3], it[2]))
+    if any(a not in atoms or b not in atoms for a, b, _ in edges):
+        return None
+    used = [False] * len(edges)
+    seen, queue, items = [root], [root], []
+    items.append(('atom', dict(atoms[root], bond=None)))
+    while queue:
+        x = queue.pop(0)
+        for k, (a, b, w) in enumerate(edges):
+            if used[k] or x not in (a, b):
+                continue
+            y = b if a == x else a
+            if y in seen:
+                continue
+            used[k] = True
+            seen.append(y)
+            queue.append(y)
+            items.append(('atom', dict(atoms[y], bond=(w, x))))
+    if len(seen) != len(order):
+        return None
+    for k, (a, b, w) in enumerate(edges):
+        if not used[k]:
+            items.append(('ringbond', a, w, b))
+    items += [it for it in frag['items'] if it[0] == 'stereo']
+    g = copy.deepcopy(frag)
+    g['items'] = copy.deepcopy(items)
+    return g
